@@ -287,7 +287,13 @@ func genSuite(g *genCtx) {
 			return strings.Join(out, "+")
 		}
 		var recs []string
-		for r := 0; r < 1+g.rng.Intn(5); r++ {
+		nr := 1 + g.rng.Intn(5)
+		if n%8 == 3 {
+			// a LONG advertisement (up to 80 records ≤ 960 bytes = 60 pages of 16): everything past the first few pages
+			// still counts, e.g. the only supported preference may be the last record
+			nr = 20 + g.rng.Intn(61)
+		}
+		for r := 0; r < nr; r++ {
 			id := []int{1, 2, 3, 17, 0x80}[g.rng.Intn(5)] // few IDs: repeats are likely
 			iana := "-"
 			if g.rng.Intn(3) == 0 {
